@@ -239,6 +239,9 @@ var c05Provs = []c05Prov{
 	{"copy-global", "strnum", `{ g = $1; un(NR, g) }`, "stdin-field"},
 	{"copy-array", "strnum", `{ B["k"] = $1; h = B["k"]; un(NR, h) }`, "stdin-field"},
 	{"field-last", "strnum", `{ un(NR, $NF) }`, "stdin-field2"},
+	// the field is assigned (becomes a true string) after it was observed: the next record's field is input text again
+	{"field-after-assign", "strnum", `{ un(NR, $1); $1 = "x" }`, "stdin-field"},
+	{"field-after-assign-resplit", "strnum", `{ un(NR, $1); $1 = "x"; $0 = "y z" }`, "stdin-field"},
 }
 
 func c05ProvByName(n string) *c05Prov {
